@@ -284,3 +284,9 @@ func (s *Sched) Drive(choice func(step, n int) int, maxSteps int) (trace []strin
 	}
 	return trace, fmt.Errorf("schedule exceeded %d steps", maxSteps)
 }
+
+// CurGID returns the id of the calling goroutine.
+func CurGID() int64 { return curGID() }
+
+// GoroutineState returns the wait state of a goroutine ("" if it is gone).
+func GoroutineWaitState(gid int64) string { return goroutineStates()[gid] }
